@@ -4,6 +4,8 @@ import LolHtml.Lane.SelPure
 import LolHtml.Lane.Mem
 import LolHtml.Lane.MemTs
 import LolHtml.Lane.Scope
+import LolHtml.Lane.Hash
+import LolHtml.Lane.Enc
 
 namespace LolHtml.Lane
 
@@ -14,7 +16,9 @@ def registry : List (String × (String → String)) :=
     ("selpure", SelPure.run),
     ("mem", Mem.run),
     ("memts", MemTs.run),
-    ("scope", Scope.run) ]
+    ("scope", Scope.run),
+    ("hash", Hash.run),
+    ("enc", Enc.run) ]
 
 def find (name : String) : Option (String → String) :=
   (registry.find? (·.1 == name)).map (·.2)
